@@ -105,15 +105,21 @@ type quoter func(string) (string, string, bool)
 
 // logql builds positions from a LogQL template with one %s hole, in three host query shapes.
 func logqlPositions(name, group, tmpl string, q quoter, want func(string) []lit, extra ...func(*position)) []*position {
+	// rate over >= 15s takes the metrics_15s shortcut when the pipeline allows it (a different statement shape);
+	// bytes_over_time never does
 	hosts := []struct{ n, f string }{
 		{"log", "%s"},
 		{"rate", "rate(%s [1m])"},
-		{"sumby", "sum by (b) (count_over_time(%s [1m]))"},
+		{"sumby", "sum by (b) (bytes_over_time(%s [1m]))"},
+	}
+	if strings.HasPrefix(name, "labelfilter=") || strings.HasPrefix(name, "labelfilter!") {
+		// the shortcut drops a label filter on stream labels: use a range it does not apply to
+		hosts[1].f = "rate(%s [10s])"
 	}
 	var out []*position
-	for _, h := range hosts {
+	for hi, h := range hosts {
 		h := h
-		p := &position{Name: "logql." + name + "@" + h.n, Group: group, Want: want, Baselines: map[string]string{"default": marker},
+		p := &position{Name: "logql." + name + "@" + h.n, Family: "logql." + name, Host: hi, Hosts: len(hosts), Group: group, Want: want, Baselines: map[string]string{"default": marker},
 			Build: func(s string) (*request, string, bool) {
 				t, eff, ok := q(s)
 				if !ok {
@@ -162,6 +168,22 @@ func regexShape(p *position) {
 
 func likeWant(eff string) []lit { return []lit{{Like: true, Val: eff}} }
 
+// emptyShape: an empty string legitimately renders a different statement in some positions (drop a="" drops by name
+// only; an empty line filter lets rate() take the metrics_15s shortcut and disappear).
+func emptyShape(p *position) {
+	prev := p.Shape
+	p.Shape = func(eff string) string {
+		if eff == "" {
+			return "empty"
+		}
+		if prev != nil {
+			return prev(eff)
+		}
+		return "default"
+	}
+	p.Baselines["empty"] = ""
+}
+
 func protoBody(m proto.Message) []byte {
 	b, err := proto.Marshal(m)
 	if err != nil {
@@ -180,6 +202,24 @@ func profReq(path string, m proto.Message) *request {
 
 const typeID = "process_cpu:cpu:nanoseconds:cpu:nanoseconds"
 
+// primaryFamilies: one position per distinct front end x rendering site; the quick tier sends the strings of length >= 3
+// only to these (every string of length <= 2 goes everywhere in both tiers).
+var primaryFamilies = map[string]bool{
+	"logql.matcher=": true, "logql.matcher=~": true, "logql.labelfilter=": true, "logql.labelfilter=~": true,
+	"logql.labelfilter.afterjson=": true, "logql.linefilter|=": true, "logql.linefilter!=": true, "logql.linefilter|~": true,
+	"logql.linefilter!~": true, "logql.linefilter.second|=": true, "logql.json.path": true, "logql.regexp.param": true,
+	"logql.drop.value": true, "logql.drop.value.afterjson": true,
+	"loki.label.name.url": true, "loki.label.values.match[]=": true, "loki.series.match[]=~": true,
+	"prom.label.name.url": true, "prom.query.matcher=": true, "prom.query_range.matcher=~": true, "prom.series.match[]=": true,
+	"prom.label.values.match[]=": true, "prom.query.metricname=": true,
+	"traceql.attr.value=": true, "traceql.attr.value=~": true, "traceql.name.value=": true, "tempo.v2.values.tag.url": true,
+	"tempo.v2.tags.q.value": true, "tempo.values.tag.url": true, "tempo.search.tags.value=": true, "tempo.search.tags.value=~": true,
+	"tempo.search.tags.name": true,
+	"prof.stacktraces.selector.value=": true, "prof.stacktraces.selector.value=~": true, "prof.stacktraces.selector.__profile_type__=": true,
+	"prof.labelvalues.name": true, "prof.series.groupby": true, "prof.seriesapi.labelnames": true, "prof.stacktraces.typeid.name": true,
+	"prof.stacktraces.typeid.sample_type": true, "prof.renderdiff.leftquery.value": true, "prof.labelnames.matchers.value=": true,
+}
+
 func allPositions() []*position {
 	var ps []*position
 	add := func(p ...*position) { ps = append(ps, p...) }
@@ -190,11 +230,11 @@ func allPositions() []*position {
 		add(logqlPositions("labelfilter"+op, "StringVal", `{b="x"} | a`+op+"%s", qlString, exactWant)...)
 		add(logqlPositions("labelfilter.afterjson"+op, "StringVal", `{b="x"} | json c="c" | a`+op+"%s", qlString, exactWant)...)
 	}
-	add(logqlPositions("linefilter|=", "doLike", `{b="x"} |= %s`, qlString, likeWant)...)
-	add(logqlPositions("linefilter!=", "doLike", `{b="x"} != %s`, qlString, likeWant)...)
-	add(logqlPositions("linefilter|~", "doLike", `{b="x"} |~ %s`, qlString, nil, regexShape)...)
-	add(logqlPositions("linefilter!~", "doLike", `{b="x"} !~ %s`, qlString, nil, regexShape)...)
-	add(logqlPositions("linefilter.second|=", "doLike", `{b="x"} |= "k" |= %s`, qlString, likeWant)...)
+	add(logqlPositions("linefilter|=", "doLike", `{b="x"} |= %s`, qlString, likeWant, emptyShape)...)
+	add(logqlPositions("linefilter!=", "doLike", `{b="x"} != %s`, qlString, likeWant, emptyShape)...)
+	add(logqlPositions("linefilter|~", "doLike", `{b="x"} |~ %s`, qlString, nil, regexShape, emptyShape)...)
+	add(logqlPositions("linefilter!~", "doLike", `{b="x"} !~ %s`, qlString, nil, regexShape, emptyShape)...)
+	add(logqlPositions("linefilter.second|=", "doLike", `{b="x"} |= "k" |= %s`, qlString, likeWant, emptyShape)...)
 	// json parameter: the string is one quoted field of the path
 	jsonPath := func(s string) (string, string, bool) {
 		eff, ok := jsonRoundTrip(s)
@@ -206,9 +246,9 @@ func allPositions() []*position {
 	}
 	add(logqlPositions("json.path", "StringVal", `{b="x"} | json c=%s`, jsonPath, exactWant)...)
 	add(logqlPositions("regexp.param", "StringVal", `{b="x"} | regexp %s`, qlString, exactWant)...)
-	add(logqlPositions("drop.value", "StringVal", `{b="x"} | drop a=%s`, qlString, exactWant)...)
-	add(logqlPositions("drop.value.afterjson", "StringVal", `{b="x"} | json c="c" | drop a=%s`, qlString, exactWant)...)
-	add(logqlPositions("label_format.template", "StringVal", `{b="x"} | label_format a=%s`, qlString, exactWant)...)
+	add(logqlPositions("drop.value", "StringVal", `{b="x"} | drop a=%s`, qlString, exactWant, emptyShape)...)
+	add(logqlPositions("drop.value.afterjson", "StringVal", `{b="x"} | json c="c" | drop a=%s`, qlString, exactWant, emptyShape)...)
+	add(logqlPositions("label_format.template", "none", `{b="x"} | label_format a=%s`, qlString, nil, func(p *position) { p.NoSlot = true })...)
 	add(logqlPositions("line_format.template", "none", `{b="x"} | line_format %s`, qlString, nil, func(p *position) { p.NoSlot = true })...)
 	// identifiers (restricted by the LogQL lexer): only strings that ARE one identifier can be expressed
 	lid := identOf(logqlIdent, logqlKeywords)
@@ -218,7 +258,7 @@ func allPositions() []*position {
 	})...)
 	add(logqlPositions("ident.json.label", "ident", `{b="x"} | json %s="c"`, lid, exactWant)...)
 	add(logqlPositions("ident.drop.name", "ident", `{b="x"} | json c="c" | drop %s`, lid, exactWant)...)
-	add(logqlPositions("ident.label_format.name", "ident", `{b="x"} | label_format %s="v"`, lid, exactWant)...)
+	add(logqlPositions("ident.label_format.name", "none", `{b="x"} | label_format %s="v"`, lid, nil, func(p *position) { p.NoSlot = true })...)
 	for _, fn := range []string{"by", "without"} {
 		fn := fn
 		add(&position{Name: "logql.ident." + fn, Group: "ident", Want: exactWant, Baselines: map[string]string{"default": marker},
@@ -466,5 +506,11 @@ func allPositions() []*position {
 				"leftFrom": {fmt.Sprint(startMs)}, "leftUntil": {fmt.Sprint(endMs)}, "rightFrom": {fmt.Sprint(startMs)}, "rightUntil": {fmt.Sprint(endMs)}}
 			return &request{Method: "GET", Path: "/pyroscope/render-diff", Query: q}, eff, true
 		}})
+	for _, p := range ps {
+		if p.Family == "" {
+			p.Family, p.Hosts = p.Name, 1
+		}
+		p.Primary = primaryFamilies[p.Family]
+	}
 	return ps
 }
